@@ -148,6 +148,9 @@ func runSched(w *Workload, c schedCfg, seed uint64) *schedRun {
 			simrt.Sleep(time.Millisecond)
 		}
 		sr.cold = c.coldStart
+		if c.coldStart {
+			runTag = "|cold-start"
+		}
 		sr.base = fs.Clone()
 		fs.Log = nil
 		fs.Record = true
